@@ -883,8 +883,8 @@ func ruleAndOrFold(p *Prog, r *Result) {
 		return ""
 	}
 	// classify the returned node
-	var classify func(v ssa.Value, d int) string
-	classify = func(v ssa.Value, d int) string {
+	var classify func(v ssa.Value, d int, ev func(ssa.Value) aval) string
+	classify = func(v ssa.Value, d int, ev func(ssa.Value) aval) string {
 		if d > 6 {
 			return "?"
 		}
@@ -893,9 +893,48 @@ func ruleAndOrFold(p *Prog, r *Result) {
 		}
 		switch x := v.(type) {
 		case *ssa.MakeInterface:
-			return classify(x.X, d+1)
+			return classify(x.X, d+1, ev)
 		case *ssa.ChangeInterface:
-			return classify(x.X, d+1)
+			return classify(x.X, d+1, ev)
+		case *ssa.Call:
+			// a package helper that builds the literal (boolLiteral(pos, val)): its reachable returns under the
+			// values of the arguments
+			g := x.Call.StaticCallee()
+			if g == nil || !p.InPkg(g) || len(g.Blocks) == 0 || ev == nil {
+				return "?"
+			}
+			argv := map[*ssa.Parameter]aval{}
+			for i, pa := range g.Params {
+				if i < len(x.Call.Args) {
+					argv[pa] = ev(x.Call.Args[i])
+				}
+			}
+			sub := &assumption{p: p}
+			sub.leaf = func(f *ssa.Function, v ssa.Value, bound map[*ssa.Parameter]string) (aval, bool) {
+				if pa, ok := v.(*ssa.Parameter); ok && f == g {
+					a := argv[pa]
+					return a, a.kind != 0
+				}
+				return aval{}, false
+			}
+			sub.bind = func(*ssa.Function, ssa.Value, map[*ssa.Parameter]string) string { return "" }
+			res2 := sub.run(g, map[*ssa.Parameter]string{})
+			out := ""
+			for _, ret := range res2.rets {
+				if len(ret.Results) == 0 {
+					continue
+				}
+				c := classify(retVal(ret, 0), d+1, res2.ev)
+				if out == "" {
+					out = c
+				} else if out != c {
+					return "?"
+				}
+			}
+			if out == "" || out == "same" {
+				return "?"
+			}
+			return out
 		case *ssa.Alloc:
 			if typeName(deref(x.Type())) != "BoolExpr" {
 				return "?"
@@ -907,6 +946,11 @@ func ruleAndOrFold(p *Prog, r *Result) {
 							if st, ok := r2.(*ssa.Store); ok {
 								if bv, isB := constBool(st.Val); isB {
 									return fmt.Sprint(bv)
+								}
+								if ev != nil {
+									if a := ev(st.Val); a.kind == 2 && a.b != abBoth {
+										return fmt.Sprint(a.b == abTrue)
+									}
 								}
 							}
 						}
@@ -1039,7 +1083,7 @@ func ruleAndOrFold(p *Prog, r *Result) {
 						if len(ret.Results) == 0 {
 							continue
 						}
-						c := classify(retVal(ret, 0), 0)
+						c := classify(retVal(ret, 0), 0, res.ev)
 						// a fresh literal built for one side of a two-literal fold still has to carry the right value
 						got = append(got, c)
 					}
@@ -3596,7 +3640,7 @@ func ruleFloatLit(p *Prog, r *Result) {
 			r.add(okv, fmt.Sprintf("%s|FloatExpr.Data#%d", p.FName(fn), idx), p.InstrPos(st), "the text of a folded float literal is plain decimal and always has a decimal point")
 		})
 	}
-	r.floor("float literals built by the folder", n, 2)
+	r.floor("float literals built by the folder", n, 1)
 	// ... and has a spelling at all: the language has no negative literal (`-` is a binary operator only) and no
 	// spelling for NaN or the infinities, so a computed value becomes a literal only behind a test that it is not
 	// negative (integers: value >= 0 on the edge; floats: a package predicate that consults math.Signbit or compares
@@ -3678,7 +3722,7 @@ func ruleFloatLit(p *Prog, r *Result) {
 			r.add(nonNegative(st.Val, st.Block()), fmt.Sprintf("%s|%s.%s#%d|spellable", p.FName(fn), o.Obj().Name(), f, idx), p.InstrPos(st), "a computed value becomes a literal only when the language can spell it: not negative, not NaN, not infinite (otherwise the statement shown by EXPLAIN cannot be read back)")
 		})
 	}
-	r.floor("numeric literals built by the folder from computed values", nv, 4)
+	r.floor("numeric literals built by the folder from computed values", nv, 2)
 	// ... and stands where the checker allows it: the checker refuses a literal zero divisor, so the folder does not
 	// put one there (`x / (2 - 2)` stays as written). In the function that folds the operands of a binary node, some
 	// store into the node's Right field lies behind `operator is Div` and a package predicate that compares a
